@@ -604,7 +604,7 @@ fn one_case(_ctx: &Ctx, case: u64, r: &mut Rng, rep: &mut Report) {
 }
 
 pub fn run(ctx: &Ctx) -> (Report, Meta) {
-    let n = ctx.tier.pick(60_000, 4_000_000);
+    let n = ctx.tier.pick(500_000, 30_000_000);
     let rep = run_cases(ctx, n, &one_case);
     let meta = Meta {
         level: "exploration",
